@@ -149,6 +149,9 @@ def check_next(ctx, F, hty, size_off, label, rule_prefix="T"):
     ctx.check(g, rule_prefix + "4", label + ":end", "next() returns None exactly when offset == buffer.len(), as its first test", A.site(), how=str(nones)[:200], why=str(ex)[:400])
     # raw header read
     adds = [(bb, t) for bb, t in b.calls() if M.callee_path(t).endswith("<impl *const T>::add")]
+    if not adds:
+        # `self.buffer[offset..].as_ptr()`: the same address through a bounds-checked sub-slice (TERMS: as_ptr of `&s[lo..]` is s.as_ptr() + lo)
+        adds = [(bb, t) for bb, t in b.calls() if M.callee_path(t) == "core::slice::<impl [T]>::as_ptr" and N(A.tb.call_value(t, bb))[0] == "ptrop"]
     ptr = None
     if len(adds) == 1:
         bb, t = adds[0]
